@@ -449,7 +449,7 @@ pub fn minimise_with(plan: &Plan, o: &Outcome, budget: u32, pred: &mut dyn FnMut
         }
         // 4. the class of the run
         if best.faulty && tried < budget {
-            let needs = best.ops.iter().any(|op| op.f != 0 || op.k == OpK::Forget || (matches!(op.k, OpK::Observe | OpK::VObserve | OpK::MObserve) && op.b != 0) || (op.k == OpK::FromIterStub && (op.a % 4 != 0 || op.b >> 8 != 0)));
+            let needs = best.ops.iter().any(|op| op.f != 0 || op.k == OpK::Forget || (matches!(op.k, OpK::Observe | OpK::VObserve | OpK::MObserve) && op.b != 0) || (op.k == OpK::FromIterStub && (op.a % 5 != 0 || op.b >> 8 != 0)));
             if !needs {
                 best.faulty = false;
             }
